@@ -181,7 +181,7 @@ def export_index(model, pos: dict) -> list:
     for f in model._loader.trees.values():
         if f.fragment_type.name != "SEMANTIC":
             continue
-        cache = f._ModelFile__xtypecache
+        cache = __import__("objlayer").private_state(f).xtypecache
         for xt, d in cache.items():
             index.append([xt, [pos.get(id(e), ORPHAN) for e in d.values()]])
     return index
